@@ -200,6 +200,27 @@ class P:
         while not self.at("}"):
             if self.eat(";"):
                 continue
+            if self.at("#"):
+                self.next()
+                self.expect("[")
+                depth, toks = 1, []
+                while depth:
+                    k, v = self.next()
+                    if v == "[": depth += 1
+                    elif v == "]": depth -= 1
+                    toks.append(v)
+                if any("similari_verif" in t for t in toks):       # a hook statement: absent when the feature is off
+                    self.expr()
+                    self.eat(";")
+                continue
+            if self.at("while") and self.peek(1)[1] == "let":
+                self.next(); self.next()
+                pat = self.pattern()
+                self.expect("=")
+                scrut = self.expr(nostruct=True)
+                body = self.block()
+                stmts.append(("expr", ("whilelet", pat, scrut, body)))
+                continue
             if self.at("let"):
                 self.next()
                 pat = self.pattern()
@@ -428,6 +449,8 @@ class P:
             return ("for", pat, it, body)
         if v == "return":
             self.next()
+            if self.at(";") or self.at("}"):
+                return ("return", ("tuple", []))
             return ("return", self.expr())
         if k == "id":
             self.next()
